@@ -666,6 +666,11 @@ fn real_main() {
             m.get("seed").and_then(|s| s.parse().ok()).unwrap_or(1),
             m.get("n").and_then(|s| s.parse().ok()).unwrap_or(1000),
         ),
+        "agent-exact" => bourse_verif_harness::floatx::agent_exact(
+            m.get("seed").and_then(|s| s.parse().ok()).unwrap_or(1),
+            m.get("n").and_then(|s| s.parse().ok()).unwrap_or(20),
+            m.get("kind").and_then(|s| s.chars().next()),
+        ),
         "snap-dump" => snap_dump(&args[2], &args[3]),
         "snap-load" => snap_load(&args[2]),
         "sim-gen" => sim_gen(&m),
